@@ -15,7 +15,11 @@ import (
 //            (error raised after scanning, through the directive's include tracer);
 // variant 1: c holds a directive that is not allowed at root — the FIRST inclusion
 //            fails during scanning (trace taken from the live scanner stack);
-// variant 2: like 0 but r1 is included from inside file a2 two levels deep.
+// variant 2: an erroneous directive of the root file right before an INCLUDE;
+// variant 3: the failing directive follows a nested INCLUDE inside r0 (scan-time error):
+//            the nested file must have been popped from the trace;
+// variant 4: same with a single INCLUDE in the root file, error raised after scanning
+//            (undefined type), trace taken from the directive's tracer.
 func HIncludeTrace() {
 	variant := vParam("variant", 0)
 	pick := func(id string) byte {
@@ -28,12 +32,28 @@ func HIncludeTrace() {
 	vFile(vPath("/vfs/p/a"), []byte("\nINCLUDE c\n"))
 	vFile(vPath("/vfs/p/b"), []byte("\n\n\nINCLUDE c\n"))
 	switch variant {
+	case 3:
+		vFile(vPath("/vfs/p/a"), []byte("\nINCLUDE c\n\nBody any\n"))
+		vFile(vPath("/vfs/p/b"), []byte("\n\n\nINCLUDE c\nBody any\n"))
+		vFile(vPath("/vfs/p/c"), []byte("# a directive of its own, so that a tracer of c exists\nTYPE @inner any\n"))
+	case 4:
+		vFile(vPath("/vfs/p/a"), []byte("\nINCLUDE c\nTYPE @t @nope\n"))
+		vFile(vPath("/vfs/p/b"), []byte("\n\n\nINCLUDE c\n\n\nTYPE @t @nope\n"))
+		vFile(vPath("/vfs/p/c"), []byte("# a directive of its own, so that a tracer of c exists\nTYPE @inner any\n"))
 	case 1:
 		vFile(vPath("/vfs/p/c"), []byte("\n\nBody any\n"))
 	default:
 		vFile(vPath("/vfs/p/c"), []byte("\n\nTYPE @dup any\n"))
 	}
 	root := []byte{'J', 'S', 'I', 'G', 'H', 'T', ' ', '0', '.', '3', '\n', '\n', 'I', 'N', 'C', 'L', 'U', 'D', 'E', ' ', r0, '\n', '\n', '\n', 'I', 'N', 'C', 'L', 'U', 'D', 'E', ' ', r1, '\n'}
+	if variant == 4 {
+		root = root[:22]
+	}
+	if variant == 2 {
+		// an erroneous directive of the ROOT file written right before an INCLUDE: the error
+		// belongs to the root file and was not reached through any INCLUDE
+		root = []byte{'J', 'S', 'I', 'G', 'H', 'T', ' ', '0', '.', '3', '\n', '\n', '2', '0', '0', ' ', 'a', 'n', 'y', '\n', 'I', 'N', 'C', 'L', 'U', 'D', 'E', ' ', r0, '\n'}
+	}
 	c := NewJApiCore(fs.NewFile(vPath("/vfs/p/root.jst"), root))
 	je := c.BuildCatalog()
 	vAssert(je != nil, "c07-fixture-expected-an-error")
@@ -45,20 +65,38 @@ func HIncludeTrace() {
 		return 4
 	}
 	var want []string
+	if variant == 2 {
+		vAssert(strings.HasSuffix(je.File.Name(), "/root.jst"), "c07-error-not-in-the-root-file")
+		vAssert(je.Error() == je.Msg, "c07-include-trace-on-an-error-of-the-root-file")
+		vAssert(int(je.Line) == 3, "c07-root-error-line")
+		vReach("trace")
+		vObserve("trace", "none")
+		return
+	}
+	if variant == 3 || variant == 4 {
+		f, incl := r0, "root.jst:3"
+		line := map[byte]string{'a': "4", 'b': "5"}
+		if variant == 4 {
+			line = map[byte]string{'a': "3", 'b': "7"}
+		}
+		vAssert(strings.HasSuffix(je.File.Name(), "/"+string(f)), "c07-error-not-in-the-including-file")
+		want = []string{string(f) + ":" + line[f], incl}
+		got := vTraceLines(je.Error())
+		vAssert(len(got) == len(want), "c07-include-trace-length")
+		for i := range want {
+			vAssert(got[i] == want[i], "c07-include-trace-entry-"+strconv.Itoa(i))
+		}
+		vReach("trace")
+		vObserve("trace", strings.Join(got, " "))
+		return
+	}
 	if variant == 1 {
 		want = []string{"c:3", string(r0) + ":" + strconv.Itoa(lineOfIncludeC(r0)), "root.jst:3"}
 	} else {
 		want = []string{"c:3", string(r1) + ":" + strconv.Itoa(lineOfIncludeC(r1)), "root.jst:6"}
 	}
 	// je.Error() = message, then "<file>:<line>" of the error, then one line per INCLUDE followed, innermost first
-	lines := strings.Split(je.Error(), "\n")
-	var got []string
-	for _, l := range lines[1:] {
-		if i := strings.LastIndex(l, "/"); i >= 0 {
-			l = l[i+1:]
-		}
-		got = append(got, l)
-	}
+	got := vTraceLines(je.Error())
 	vAssert(strings.HasSuffix(je.File.Name(), "/c"), "c07-error-not-in-the-included-file")
 	vAssert(len(got) == len(want), "c07-include-trace-length")
 	for i := range want {
@@ -66,6 +104,18 @@ func HIncludeTrace() {
 	}
 	vReach("trace")
 	vObserve("trace", strings.Join(got, " "))
+}
+
+func vTraceLines(e string) []string {
+	lines := strings.Split(e, "\n")
+	var got []string
+	for _, l := range lines[1:] {
+		if i := strings.LastIndex(l, "/"); i >= 0 {
+			l = l[i+1:]
+		}
+		got = append(got, l)
+	}
+	return got
 }
 
 func init() { vRegister("HIncludeTrace", HIncludeTrace) }
